@@ -478,7 +478,8 @@ BVCD_FLAGS = [0, 1, 8, 0b110110, 63]
 
 
 def h_bvcd(s: str, active: bool, chan_active: bool, ignore_ph: bool, has_tag: bool, has_dir: bool, trk_active: bool,
-           comb: bool, gender: bool, supp: bool, etype: int, cap: int, n: int, flag_i: int = 0, mode: str = "kinds") -> None:
+           comb: bool, gender: bool, supp: bool, etype: int, cap: int, n: int, flag_i: int = 0, mode: str = "kinds",
+           tag_empty: bool = False) -> None:
     """Scene.export_binary -> Scene.parse_binary reproduces the scene field by field (event kind by symbolic index over all
     19 EventType members incl. the Gesture/Loop/Speak subclasses, optional relative-tag block, optional direction track,
     activity flags, caption type and speak flags, one symbolic pool string); exporting the parsed scene again is identical."""
@@ -499,7 +500,7 @@ def h_bvcd(s: str, active: bool, chan_active: bool, ignore_ph: bool, has_tag: bo
     common = dict(
         name=s, parameters=("p1", s, ""), start_time=0.25, end_time=-1.0 if etype % 2 else 2.5,
         ramp=ch.Curve([ch.ExpressionSample(0.5, 1.0), ch.ExpressionSample(1.0, 0.2)]), flags=ch.EventFlags(BVCD_FLAGS[flag_i]),
-        dist_to_targ=12.5, tag_name="tag" if has_tag else None, tag_wav_name="wav.wav" if has_tag else None,
+        dist_to_targ=12.5, tag_name=("" if tag_empty else "tag") if has_tag else None, tag_wav_name=("" if tag_empty else "wav.wav") if has_tag else None,
         relative_tags=[ch.Tag("rel", 0.6)], timing_tags=[ch.TimingTag("tim", 1.0), ch.TimingTag(s, 0.0)],
         absolute_playback_tags=[ch.AbsoluteTag("abs", 0.5)], absolute_shifted_tags=[ch.AbsoluteTag("shift", 0.75)],
         flex_anim_tracks=[ch.FlexAnimTrack(
@@ -538,8 +539,9 @@ def h_bvcd(s: str, active: bool, chan_active: bool, ignore_ph: bool, has_tag: bo
 
 
 def h_bvcd_witness(s: str, active: bool, chan_active: bool, ignore_ph: bool, has_tag: bool, has_dir: bool, trk_active: bool,
-                   comb: bool, gender: bool, supp: bool, etype: int, cap: int, n: int, flag_i: int = 0, mode: str = "kinds") -> None:
-    h_bvcd(s, active, chan_active, ignore_ph, has_tag, has_dir, trk_active, comb, gender, supp, etype, cap, n, flag_i, mode)
+                   comb: bool, gender: bool, supp: bool, etype: int, cap: int, n: int, flag_i: int = 0, mode: str = "kinds",
+                   tag_empty: bool = False) -> None:
+    h_bvcd(s, active, chan_active, ignore_ph, has_tag, has_dir, trk_active, comb, gender, supp, etype, cap, n, flag_i, mode, tag_empty)
     raise Fail("reached")
 
 
@@ -878,6 +880,27 @@ def h_vmt(shader: str, pname: str, pval: str, bval: str, has_block: bool, has_pr
     sink2 = ChunkSink()
     got.export(sink2)
     _same_pieces(sink.parts, sink2.parts, "vmt")
+
+
+VMT_SPECIALS = None
+
+
+def h_vmt_specials(ci: int, where: int) -> None:
+    """Delimiter characters by symbolic index: each member of the tokenizer's BARE_DISALLOWED set (plus '/', '#', ':', '+') placed
+    inside a shader / parameter name / parameter value that has no other reason to be quoted. Concrete strings, so a writer
+    that decides quoting with a regular expression or any other C-level test is executed for real (enumeration, stated)."""
+    import srctools.tokenizer as tk
+    from vf.props.c08 import pick
+    specials = sorted(set(tk.BARE_DISALLOWED) - set('"\r\n')) + ["/", "#", ":", "+", "$", "%"]
+    c = pick(specials, ci)
+    w = pick([0, 1, 2], where)
+    text = "x" + c + "y"
+    if w == 0:
+        h_vmt(text, "", "", "", False, False, 3, -1, -1, -1)
+    elif w == 1:
+        h_vmt("", text, "", "", False, False, -1, 3, -1, -1)
+    else:
+        h_vmt("", "", text, "", False, False, -1, -1, 3, -1)
 
 
 def h_vmt_witness(shader: str, pname: str, pval: str, bval: str, has_block: bool, has_proxy: bool,
@@ -1237,6 +1260,7 @@ def obligations(tier):
                     desc="reachability twin"))
     # --- binary scenes
     sl = [{"n": 1, "flag_i": 4, "mode": m} for m in ("kinds", "speak", "flags")]
+    sl += [{"n": 1, "flag_i": 4, "mode": "kinds", "tag_empty": True}]      # a relative-tag block whose two names are empty strings
     if not quick:
         sl += [{"n": k, "flag_i": f, "mode": m} for m in ("kinds", "speak", "flags") for (k, f) in ((0, 0), (2, 1), (1, 2), (1, 3))]
     obls.append(Obl("bvcd.roundtrip", MOD, "h_bvcd", slices=sl, budget_s=900, per_path_s=120,
@@ -1296,6 +1320,9 @@ def _text_obligations(quick):
                     bound="5 parameters (1 symbolic), optional fallback block (nested) and proxies; shader / value symbolic over every code point "
                           "at exact length 0-1 (2 thorough), one slot at a time; parameter name: empty (quick), ASCII length 1 (thorough)"))
     sl = known("vmt.blocks", [dict(base, n_bv=1), dict(base, n_bv=0)] + ([] if quick else [dict(base, n_bv=2)]))
+    obls.append(Obl("vmt.specials", MOD, "h_vmt_specials", budget_s=600, per_path_s=90,
+                    desc="every delimiter character of the tokenizer inside an otherwise bare shader / name / value (by symbolic index)",
+                    bound="one character from BARE_DISALLOWED + {/ # : + $ %} between two letters; 3 positions"))
     obls.append(Obl("vmt.blocks", MOD, "h_vmt", slices=sl, budget_s=600, per_path_s=90,
                     desc="same with a symbolic leaf value inside a fallback block and a proxy (written through Keyvalues.serialise)",
                     bound="leaf of exact length 0-1 (2 thorough)"))
